@@ -210,7 +210,13 @@ def main(argv=None):
         for o in obligations:
             print('  %-40s %-12s %-10s paths=%-5s cpu=%s %s' % (o['name'], o['verdict'], o['status'], o['paths'], o['cpu_s'],
                                                                (o.get('error') or '')[:200]))
-    return 1 if violations else 0
+    broken = [o for o in obligations if o['verdict'] == 'engine-error']
+    for o in broken:
+        # an obligation that could not be run is a defect of the machinery, never a silent pass
+        print('HARNESS-ERROR property=%s obligation=%s could not run: %s' % (pid, o['name'], (o.get('error') or '')[:300]))
+    if violations:
+        return 1
+    return 3 if broken else 0
 
 
 def write_evidence(pid, tier, seed, obligations, violations, wall, info):
